@@ -495,8 +495,12 @@ class Check:
         ev = {"property_id": self.pid, "tier": self.tier, "seed": seed(), "level": "proof",
               "coverage": cov, "assumptions": self.assumptions, "wall_s": round(time.time() - self.t0, 2),
               "violations": nviol}
-        os.makedirs(os.path.join(VERIF, "evidence"), exist_ok=True)
-        with open(os.path.join(VERIF, "evidence", self.pid + ".json"), "w") as f:
+        # evidence describes runs against /repo itself; a run against another tree (VERIF_REPO: seeded changes, scratch
+        # worktrees) writes its evidence under .work/ so that it can never be mistaken for (or committed as) the real one
+        evdir = os.path.join(VERIF, "evidence") if os.path.realpath(REPO) == "/repo" else os.path.join(WORK, "evidence_other_tree")
+        ev["repo"] = os.path.realpath(REPO)
+        os.makedirs(evdir, exist_ok=True)
+        with open(os.path.join(evdir, self.pid + ".json"), "w") as f:
             json.dump(ev, f, indent=1, default=str)
 
 
